@@ -11,9 +11,8 @@ open Exa Exa.Generated.Registry
 def Canonical (k : Kind) (c : Cfg) (b : Bytes) : Prop :=
   match k with
   | .flow => WFBytes b ∧ (b.getD 0 0 < 240 ∨ (b.getD 0 0 = 240 ∧ 240 ≤ b.getD 1 0))  -- shortest length form
-  | .vpls => rd16 b = 17                     -- no trailing bytes after the 17 known ones
+  | .vpls => WFBytes b ∧ rd16 b = 17         -- no trailing bytes after the 17 known ones
   | .rtc => b.getD 5 0 < 64                  -- the two high bits of the route-target type are clear
-  | .type16Len16 => ¬ (c.safi = 72 ∧ bgplsCodes.contains (rd16 b) = true)   -- see `bgpls_vpn_drops_rd`
   | _ => True
 
 theorem cutAt_stored {n : Nat} {d : Bytes} {c : Cut} (h : cutAt n d = some c) : c.stored = c.consumed := by
@@ -58,12 +57,11 @@ theorem pack_mup {c : Cfg} {b : Bytes} {cut : Cut} (h : split .mup c b = some cu
   · cases h
   · simp [pack, cutAt_stored h, hp]
 
-theorem pack_bgpls {c : Cfg} {b : Bytes} {cut : Cut} (h : split .type16Len16 c b = some cut) (hr : cut.rest = [])
-    (hc : Canonical .type16Len16 c b) : pack .type16Len16 cut.stored = some b := by
+theorem pack_bgpls {c : Cfg} {b : Bytes} {cut : Cut} (h : split .type16Len16 c b = some cut) (hr : cut.rest = []) :
+    pack .type16Len16 cut.stored = some b := by
   have hp := whole_of_rest_nil (split_prefix _ _ _ _ h) hr
   simp only [split] at h
   unfold splitBgpls at h
-  simp only [Canonical] at hc
   split at h
   · cases h
   · simp only at h
@@ -73,12 +71,7 @@ theorem pack_bgpls {c : Cfg} {b : Bytes} {cut : Cut} (h : split .type16Len16 c b
       · cases h
       · split at h
         · cases h
-        · split at h
-          · rename_i hvk
-            exfalso; apply hc
-            simp only [Bool.and_eq_true, beq_iff_eq] at hvk
-            exact ⟨hvk.1, hvk.2⟩
-          · cases h; simp only [pack]; simp at hp; simp [hp]
+        · cases h; simp only [pack]; simp at hp; simp [hp]
 
 theorem pack_flow {c : Cfg} {b : Bytes} {cut : Cut} (h : split .flow c b = some cut) (hr : cut.rest = [])
     (hc : Canonical .flow c b) : pack .flow cut.stored = some b := by
@@ -127,14 +120,32 @@ theorem pack_flow {c : Cfg} {b : Bytes} {cut : Cut} (h : split .flow c b = some 
           have r : b1 % 256 = b1 := by omega
           rw [q, r]
 
+theorem take2_of_rd16 (b : Bytes) (hw : WFBytes b) (hl : 2 ≤ b.length) (n : Nat) (h : rd16 b = n) :
+    b.take 2 = be16 n := by
+  cases b with
+  | nil => simp at hl
+  | cons x t =>
+    cases t with
+    | nil => simp at hl
+    | cons y t =>
+      have hx : x < 256 := hw x (by simp)
+      have hy : y < 256 := hw y (by simp)
+      subst h
+      have := be16_rd16 x y hx hy
+      simp only [rd16, List.getD_cons_zero, List.getD_cons_succ] at this ⊢
+      simp only [List.take_succ_cons, List.take_zero]
+      exact this.symm
+
 theorem pack_vpls {c : Cfg} {b : Bytes} {cut : Cut} (h : split .vpls c b = some cut)
     (hc : Canonical .vpls c b) : pack .vpls cut.stored = some b := by
   simp only [split] at h
   unfold splitVpls at h
   simp only [Canonical] at hc
+  obtain ⟨hw, hc⟩ := hc
   split at h
   · cases h
-  · simp only [hc, vplsPayloadSize] at h
+  · rename_i h2
+    simp only [hc, vplsPayloadSize] at h
     split at h
     · cases h
     · split at h
@@ -144,7 +155,7 @@ theorem pack_vpls {c : Cfg} {b : Bytes} {cut : Cut} (h : split .vpls c b = some 
         simp only [pack]
         have hlen : b.length = 19 := by omega
         have : (b.drop 2).take 17 = b.drop 2 := List.take_of_length_le (by simp; omega)
-        rw [this, List.take_append_drop]
+        rw [this, ← take2_of_rd16 b hw (by omega) 17 hc, List.take_append_drop]
 
 theorem len13 (p : Bytes) (h : p.length = 13) :
     ∃ a0 a1 a2 a3 a4 a5 a6 a7 a8 a9 a10 a11 a12, p = [a0, a1, a2, a3, a4, a5, a6, a7, a8, a9, a10, a11, a12] := by
@@ -213,7 +224,7 @@ theorem pack_split (k : Kind) (c : Cfg) (b : Bytes) (cut : Cut) (h : split k c b
   · exact pack_pfx h hr
   · exact pack_typeLen8 h hr
   · exact pack_mup h hr
-  · exact pack_bgpls h hr hc
+  · exact pack_bgpls h hr
   · exact pack_flow h hr hc
   · exact pack_vpls h hc
   · exact pack_rtc h hr hc
